@@ -542,10 +542,10 @@ pub unsafe fn s_add_stream<RW: QueueRW<Pay>>(n: usize, k: usize) {
     assert!(lv1.k == a0.k + 1, "C10: exactly one stream is added");
     let mut j = 0;
     while j < a0.k {
-        assert!(lv1.pos_ptr[j] == lv0.pos_ptr[j] && lv1.pos[j] == a0.pos[j], "C10: existing streams keep their position and backpressure");
+        assert!(lv1.pos_ptr[j] == lv0.pos_ptr[j] && lv1.pos[j] == a0.pos[j], "C01/C03/C10: existing streams keep their position and backpressure");
         j += 1;
     }
-    assert!(lv1.pos_ptr[a0.k] == rx2.reader.vf_pos_ptr() && lv1.pos[a0.k] == a0.pos[i], "C10: the new stream starts at the parent's position");
+    assert!(lv1.pos_ptr[a0.k] == rx2.reader.vf_pos_ptr() && lv1.pos[a0.k] == a0.pos[i], "C01/C03/C10: the new stream starts at the parent's position (a stream registered elsewhere loses values and breaks the window test)");
     assert!(rx2.reader.vf_consumers() == 1 && rx2.reader.vf_is_single_state() && rx2.reader.vf_mask() == n - 1, "C10: the new stream has one consumer on the same ring");
     assert!(rx2.alive && w.q.manager.vf_has_token(rx2.token) && w.q.manager.vf_ntokens() == nt0 + 1, "C16: the new handle gets its own registered token");
     assert!(a1.head == a0.head && a1.writers == a0.writers && a1.tail_cache == a0.tail_cache && same_except_slot(&a0, &a1, usize::MAX), "C10: no side effects on the log, the cache, the senders or any slot");
